@@ -361,6 +361,16 @@ pub mod verif_hooks {
         pub fn flag(&self) -> bool {
             vt::table_flag(&self.0)
         }
+        /// Adds a tablet whose only replica is node `replica_id` (known or not).
+        pub fn add_on(&mut self, first: i64, last: i64, replica_id: u128, resolved: bool) {
+            vt::table_add(&mut self.0, vt::make_tablet_on(first, last, replica_id, resolved))
+        }
+        pub fn maintain(&mut self, removed: &[u128], known: &[u128], recreated: &[u128]) {
+            vt::table_maintain(&mut self.0, removed, known, recreated)
+        }
+        pub fn is_unresolved(&self, i: usize) -> bool {
+            vt::tablet_is_unresolved(&self.0, i)
+        }
     }
 
     /// NetworkTopologyStrategy replicas of a single-datacenter ring (node i owns token 100*(i+1), rack `racks[i]`).
